@@ -179,12 +179,11 @@ func c19serialisers(c *mon.Ctx, g *engine, rng *rand.Rand, n, pattern, w int) {
 			c.Fail("BatchToBytesUncompressed-differs-from-single", fmt.Sprintf("BatchToBytesUncompressed[%d] of %d != BytesUncompressedTrusted() (%s)", i, n, cls), nil)
 			break
 		}
-		gp, ok := ElemToRef(elems[i])
-		if ok {
-			if want := ref.SerializeUncompressed(gp); us != want {
-				c.Fail("uncompressed-differs-from-reference", fmt.Sprintf("BytesUncompressedTrusted of element %d != affine x||y", i), nil)
-				break
-			}
+		// the 64 bytes must be x||y of a representative of the element's class
+		ua := ref.Affine{X: ref.FromBE(us[:32]), Y: ref.FromBE(us[32:])}
+		if ua.X.Cmp(ref.P) >= 0 || ua.Y.Cmp(ref.P) >= 0 || !ua.OnCurve() || !ref.ClassEqualAffine(ua, shad[i].Affine()) {
+			c.Fail("uncompressed-not-a-representative", fmt.Sprintf("BytesUncompressedTrusted of element %d is not x||y of a point of the element's class", i), nil)
+			break
 		}
 		var sm fr.Element
 		elems[i].MapToScalarField(&sm)
